@@ -92,8 +92,15 @@ def gen_case(rng, tier="quick"):
         k = _pick(rng, ["new_corr", "set_attr", "eval", "new_bath",
                         "bath_eval", "scribble_bath", "tempo", "pt",
                         "dynamics", "gradient", "tebd", "mutate_after",
-                        "fault_then", "system_use", "probe"],
-                  [1, 5, 6, 4, 4, 1, 2, 2, 3, 1, 2, 2, 1, 5, 4])
+                        "fault_then", "system_use", "probe", "shared"],
+                  [1, 5, 6, 4, 4, 1, 2, 2, 3, 1, 2, 2, 1, 5, 4, 5])
+        if k == "shared":
+            # long-lived shared objects used again with other arguments
+            ops.append(["shared", _pick(rng, ["td_system", "control",
+                                              "bath_two_dt", "gibbs_pair",
+                                              "pt_in_tebd", "parameters"]),
+                        rng.randrange(3), rng.randrange(1, 4)])
+            continue
         if k == "new_corr":
             kind, vals = gen_corr(rng)
             ops.append(["new_corr", kind, vals])
@@ -316,6 +323,7 @@ def run_case(case, dec):
                            "fields": fields})
 
     shared_systems = {}
+    shared_objs = {}
     corrs = []   # {"obj", "kind", "vals"(current), "touched": set(attrs)}
     baths = []   # {"obj", "kind", "vals"(at construction), "coupling"}
     pts = []     # {"obj", "bath": index, "steps"}
@@ -677,6 +685,127 @@ def run_case(case, dec):
                          "a %s built from a caller array changed (by %.3g) "
                          "when the caller later overwrote that array" % (
                              which, err), holder=which)
+            elif k == "shared":
+                what, dti, steps = op[1], op[2], op[3]
+                dt = [0.05, 0.1, 0.2][dti]
+                tol = 1e-10
+
+                def ham_t(t):
+                    return 0.5 * np.cos(1.3 * t) * o["x"] + 0.2 * o["z"]
+
+                def mk_shared(key, factory):
+                    if key not in shared_objs:
+                        shared_objs[key] = factory()
+                    return shared_objs[key]
+                if what == "td_system":
+                    def mk():
+                        return oqupy.TimeDependentSystem(
+                            ham_t, gammas=[lambda t: 0.1 + 0.05 * t],
+                            lindblad_operators=[lambda t: o["-"]])
+
+                    def run(sy):
+                        return oqupy.compute_dynamics(
+                            sy, RHO0, dt=dt, num_steps=steps,
+                            start_time=0.1 * dti, subdiv_limit=None,
+                            progress_type="silent").states
+                    got, want = run(mk_shared("td", mk)), run(mk())
+                elif what == "control":
+                    def mk():
+                        c = oqupy.Control(2)
+                        c.add_single(1, oqupy.operators.left_super(o["x"]))
+                        c.add_single(0.2, oqupy.operators.left_super(o["z"]),
+                                     post=True)
+                        return c
+
+                    def run(c):
+                        return oqupy.compute_dynamics(
+                            oqupy.System(0.4 * o["x"]), RHO0, dt=dt,
+                            num_steps=steps + 1, control=c,
+                            progress_type="silent").states
+                    got, want = run(mk_shared("ctl", mk)), run(mk())
+                elif what == "bath_two_dt":
+                    need_bath()
+                    b = baths[0]
+                    tol = max(TOL, 100 * EPSREL)
+
+                    def run(bath):
+                        tp = oqupy.TempoParameters(dt=dt, epsrel=EPSREL,
+                                                   dkmax=2)
+                        return oqupy.Tempo(
+                            oqupy.System(0.5 * o["x"]), bath, tp, RHO0,
+                            0.0).compute((steps + 0.5) * dt,
+                                         progress_type="silent").states
+                    got, want = run(b["obj"]), run(fresh_bath(b))
+                elif what == "gibbs_pair":
+                    def mkb():
+                        return oqupy.Bath(0.5 * o["z"], oqupy.PowerLawSD(
+                            0.2, 1.0, 3.0, temperature=0.7))
+                    sysg = mk_shared("gsys", lambda: oqupy.System(
+                        0.3 * o["z"] + 0.2 * o["x"]))
+                    bathg = mk_shared("gbath", mkb)
+
+                    def run(sy, bath):
+                        g = oqupy.GibbsTempo(sy, bath, oqupy.GibbsParameters(
+                            n_steps=2 + steps + dti, epsrel=1e-9))
+                        g.compute(progress_type="silent")
+                        return g.get_state()
+                    got = run(sysg, bathg)
+                    want = run(oqupy.System(0.3 * o["z"] + 0.2 * o["x"]),
+                               mkb())
+                elif what == "pt_in_tebd":
+                    need_pt()
+                    p0 = pts[0]
+                    b = baths[p0["bath"]]
+                    tol = max(TOL, 100 * EPSREL)
+
+                    def run(pt):
+                        chain = oqupy.SystemChain([2, 2])
+                        chain.add_site_hamiltonian(0, 0.3 * o["x"])
+                        chain.add_nn_hamiltonian(0, 0.4 * o["z"], o["z"])
+                        t = oqupy.PtTebd(
+                            oqupy.AugmentedMPS([RHO0, RHO0.T]), chain,
+                            [pt, None], oqupy.PtTebdParameters(
+                                dt=0.1, order=2, epsrel=1e-10),
+                            dynamics_sites=[0, 1])
+                        r = t.compute(min(steps, p0["steps"]),
+                                      progress_type="silent")
+                        return np.concatenate(
+                            [r["dynamics"][0].states.ravel(),
+                             r["dynamics"][1].states.ravel()])
+                    got = run(p0["obj"])
+                    want = run(oqupy.pt_tempo_compute(
+                        fresh_bath(b), 0.0, (p0["steps"] + 0.5) * 0.1,
+                        pars(p0["steps"]), progress_type="silent"))
+                else:  # one TempoParameters object for several computations
+                    need_bath()
+                    b = baths[0]
+                    tol = max(TOL, 100 * EPSREL)
+
+                    def mk():
+                        return oqupy.TempoParameters(dt=0.1, epsrel=EPSREL,
+                                                     dkmax=2)
+
+                    def run(tp):
+                        pt = oqupy.pt_tempo_compute(
+                            fresh_bath(b), 0.0, (steps + 1.5) * 0.1, tp,
+                            progress_type="silent")
+                        t = oqupy.Tempo(oqupy.System(0.5 * o["x"]),
+                                        fresh_bath(b), tp, RHO0, 0.0)
+                        st = t.compute((steps + 0.5) * 0.1,
+                                       progress_type="silent").states
+                        d2 = oqupy.compute_dynamics(
+                            oqupy.System(0.5 * o["x"]), RHO0,
+                            process_tensor=pt, progress_type="silent").states
+                        return np.concatenate([st.ravel(), d2.ravel()])
+                    got, want = run(mk_shared("tp", mk)), run(mk())
+                stats["computations"] += 1
+                ok, err = _close(got, want, tol)
+                log.ev("shared", what, dti, steps, ok)
+                if not ok:
+                    viol("reuse_changes_result", "shared/%s" % what,
+                         "a shared %s object used again (dt=%g, %d steps) "
+                         "gives results differing by %.3g from fresh equal "
+                         "objects" % (what, dt, steps, err), holder=what)
             elif k == "system_use":
                 # shared System objects re-used with different arguments
                 si, lay, dti, steps, api = op[1], op[2], op[3], op[4], op[5]
